@@ -248,16 +248,28 @@ def _run_smt_batch(obs: list, prop: str, tier: str, tag: str) -> dict:
     return results
 
 
-def _run_py(ob: Py) -> dict:
+def _run_py(ob: Py, prop: str, tier: str, tag: str) -> dict:
+    """Run a directly decided obligation in its own process."""
+    os.makedirs(WORK, exist_ok=True)
+    out = os.path.join(WORK, f"{tag}.json")
+    if os.path.exists(out):
+        os.unlink(out)
     t0 = time.time()
+    cmd = [PY, os.path.join(ROOT, "engines", "py_worker.py"), prop, tier, ob.name, out]
     try:
-        r = ob.fn()
-    except Exception as e:  # noqa: BLE001
-        return {"status": "error", "message": f"{type(e).__name__}: {e}", "traceback": traceback.format_exc()[-3000:],
-                "wall_s": time.time() - t0}
-    r = dict(r)
-    r["status"] = "confirmed" if r.get("ok") else ("cex" if r.get("cex") is not None or r.get("violation") else "error")
-    r["wall_s"] = round(time.time() - t0, 3)
+        p = subprocess.run(cmd, capture_output=True, text=True, timeout=ob.timeout * 8 + 600, cwd=ROOT,
+                           env=dict(os.environ, PYNGUIN_VERIF="1", PYTHONHASHSEED="0"))
+        err = p.stderr[-1500:]
+    except subprocess.TimeoutExpired:
+        return {"status": "error", "message": "py worker exceeded OS timeout", "wall_s": time.time() - t0}
+    if not os.path.exists(out):
+        return {"status": "error", "message": f"py worker produced no result rc={p.returncode}: {err}", "wall_s": time.time() - t0}
+    r = json.load(open(out))
+    os.unlink(out)
+    if r.get("error"):
+        r["status"] = "error"
+    else:
+        r["status"] = "confirmed" if r.get("ok") else ("cex" if r.get("cex") is not None or r.get("violation") else "error")
     return r
 
 
@@ -289,7 +301,7 @@ def run_property(prop: str, tier: str, seed: int, only: str | None = None, verbo
                 r2["retried_after"] = str(r.get("message"))[:300]
                 r = r2
         else:
-            r = _run_py(sub)
+            r = _run_py(sub, prop, tier, tag)
         return [(idx, r)]
 
     def smt_job(idxs: list[int]):
@@ -305,24 +317,14 @@ def run_property(prop: str, tier: str, seed: int, only: str | None = None, verbo
     batch = max(1, -(-len(smt_items) // (NCPU * 2)))
     smt_batches = [smt_items[k:k + batch] for k in range(0, len(smt_items), batch)]
     with cf.ThreadPoolExecutor(max_workers=NCPU) as ex:
-        futs = [ex.submit(job, i) for i in par_items] + [ex.submit(smt_job, b) for b in smt_batches]
-        # Py obligations run in this process (they are cheap and may share imports)
-        for i in py_items:
-            for idx, r in job(i):
-                results[items[idx][0].name] = r
+        futs = [ex.submit(job, i) for i in py_items + par_items] + [ex.submit(smt_job, b) for b in smt_batches]
         for f in cf.as_completed(futs):
             for idx, r in f.result():
                 results[items[idx][0].name] = r
                 if verbose:
                     sub = items[idx][0]
-                    print(f"  [{prop}] {sub.name}: {r.get('status')} paths={r.get('paths', '-')} reach={r.get('reach', '-')} "
-                          f"t={r.get('wall_s', '-')}s {str(r.get('message', ''))[:160]}", flush=True)
-    if verbose:
-        for i in py_items:
-            sub = items[i][0]
-            r = results[sub.name]
-            print(f"  [{prop}] {sub.name}: {r.get('status')} cases={r.get('cases', '-')} t={r.get('wall_s', '-')}s "
-                  f"{str(r.get('message', r.get('detail', '')))[:160]}", flush=True)
+                    print(f"  [{prop}] {sub.name}: {r.get('status')} paths={r.get('paths', r.get('cases', '-'))} reach={r.get('reach', '-')} "
+                          f"t={r.get('wall_s', '-')}s {str(r.get('message', r.get('detail', '')))[:160]}", flush=True)
 
     # ---------------------------------------------------------------- classify
     violations, harness_errors, nonexhaustive, inconclusive = [], [], [], []
